@@ -149,11 +149,11 @@ func laPlain(c *Ctx, rule string) {
 		case b == nil:
 			r.bad(rule, key, u.Pos(f.write.Pos()), "column values are not of a primitive type: "+f.elem.String())
 		case b.Kind() == types.Bool:
-			plainBool(c, rule, key, f)
+			withUnitCtx(u, []*ssa.Function{f.write, f.read}, func() { plainBool(c, rule, key, f) })
 		case b.Info()&types.IsString != 0:
-			plainString(c, rule, key, f)
+			withUnitCtx(u, []*ssa.Function{f.write, f.read}, func() { plainString(c, rule, key, f) })
 		default:
-			plainNumeric(c, rule, key, f)
+			withUnitCtx(u, []*ssa.Function{f.write, f.read}, func() { plainNumeric(c, rule, key, f) })
 		}
 	}
 	r.floor(rule+"/field-types", 16, "all 16 field templates in alltypes")
@@ -1092,6 +1092,29 @@ func laMemRead(c *Ctx, rule string) {
 			}
 		case *ssa.ChangeInterface:
 			concrete(x.X, depth+1, into)
+		case *ssa.Extract:
+			// a result of a helper of the runtime (`return chunk.result()`)
+			if call, ok := x.Tuple.(*ssa.Call); ok {
+				if sc := call.Call.StaticCallee(); sc != nil && sc.Blocks != nil && u.pkgPathOf(sc) == rtPath {
+					for _, b := range sc.Blocks {
+						if ret, ok := lastInstr(b).(*ssa.Return); ok && x.Index < len(ret.Results) {
+							concrete(ret.Results[x.Index], depth+1, into)
+						}
+					}
+					return
+				}
+			}
+			into["? ("+symExpr(v, 0)+")"] = true
+		case *ssa.Call:
+			if sc := x.Call.StaticCallee(); sc != nil && sc.Blocks != nil && u.pkgPathOf(sc) == rtPath && sc.Signature.Results().Len() == 1 {
+				for _, b := range sc.Blocks {
+					if ret, ok := lastInstr(b).(*ssa.Return); ok {
+						concrete(ret.Results[0], depth+1, into)
+					}
+				}
+				return
+			}
+			into["? ("+symExpr(v, 0)+")"] = true
 		default:
 			into["? ("+symExpr(v, 0)+")"] = true
 		}
